@@ -642,6 +642,8 @@ class SInt:
     def item(self):
         return self
 
+    tolist = item  # numpy scalar API: the Python value of a symbolic scalar is the symbolic scalar
+
     def __repr__(self):
         return f"SInt({z3.simplify(self.e)})"
 
@@ -730,6 +732,11 @@ class SReal:
 
     def __float__(self):
         raise Unsupported("float() of a symbolic real")
+
+    def item(self):
+        return self
+
+    tolist = item
 
     def __bool__(self):
         return cur().decide(self.e != 0)
